@@ -333,6 +333,210 @@ theorem C08_params_persist_product (s : Store) (kv : KV) (hk : s.cfg.kind = .pro
   · have hp' : s.params.isEmpty = false := by cases h : s.params <;> simp_all
     simp [productNewGetsCentroids, productFlushPutsCentroids, hp', get_put, hne, hp]
 
+
+/-! ### order of the persist steps: whatever rewrites cached values comes before the flush -/
+
+/-- the write paths of the two vector indexes still end `…; Fit; flush` (call names extracted from
+`vamana.insertUpdateDelete` and `flat.InsertUpdateDelete` in program order on every run): the model's
+transaction is "program, then Flush" (`runBatch`), a rewrite after the flush is outside it -/
+example : phasesOfNames Gen.FactsC08.vamanaWritePhases = [.fit, .flush] ∧
+    phasesOfNames Gen.FactsC08.flatWritePhases = [.fit, .flush] ∧
+    Gen.FactsC08.vamanaWritePhases.getLast? = some "flush" ∧ Gen.FactsC08.flatWritePhases.getLast? = some "flush" := by decide
+
+/-- **C08_fit_then_flush**: training inside the batch, in the order of the source: after `Fit; Flush`
+the cache is coherent with the new bucket and the bucket says what the transaction saw *after* the
+training — the re-encoded points are on disk.  Needs what `C08_mutation_dirty` needs: each rewritten
+value reports itself dirty (or keeps its projection) and satisfies the write precondition. -/
+theorem C08_fit_then_flush {st : Storable K V} {proj : V → P} {ok : K → V → KV → Prop} (L : Laws st proj ok)
+    {c : Cache K V} {kv : KV} (h : Tracked st proj ok c kv) (f : K → V → V)
+    (hdirty : ∀ id e, find c.items id = some e → e.isDeleted = false →
+      (st.checkClear (f id e.value)).1 = true ∨
+      (proj (f id e.value) = proj e.value ∧ (st.checkClear (f id e.value)).1 = (st.checkClear e.value).1))
+    (hok : ∀ id e, find c.items id = some e → e.isDeleted = false → ok id (f id e.value) kv) :
+    Coherent st proj ok (runPhases st f [.fit, .flush] (c, kv)).1 (runPhases st f [.fit, .flush] (c, kv)).2 ∧
+    ∀ id, obs st proj (runPhases st f [.fit, .flush] (c, kv)).2 id = view st proj (mapLive f c.items) kv id := by
+  have ht := tracked_mapLive h f hdirty hok
+  simpa [runPhases] using flush_spec L ht
+
+/-- the instance the quantised stores use: `Fit` sets the code and raises `isDirty` (extracted:
+`inPlaceMutations`), so the first disjunct of `hdirty` holds for every value -/
+theorem C08_fit_then_flush_binary {c : Cache Id Pt} {kv : KV} (h : Tracked (storable binaryQuantizedPoint) norm okQ c kv)
+    (code : Id → Bytes) (hcode : ∀ id, code id ≠ []) :
+    let f : Id → Pt → Pt := fun id p => { p with code := code id, dirty := true }
+    Coherent (storable binaryQuantizedPoint) norm okQ (runPhases (storable binaryQuantizedPoint) f [.fit, .flush] (c, kv)).1
+      (runPhases (storable binaryQuantizedPoint) f [.fit, .flush] (c, kv)).2 ∧
+    ∀ id, obs (storable binaryQuantizedPoint) norm (runPhases (storable binaryQuantizedPoint) f [.fit, .flush] (c, kv)).2 id =
+      view (storable binaryQuantizedPoint) norm (mapLive f c.items) kv id := by
+  intro f
+  apply C08_fit_then_flush laws_binary h f
+  · intro id e _ _
+    left
+    simp [f, storable, binaryQuantizedPoint]
+  · intro id e _ _
+    exact ⟨Or.inl (hcode id), fun hc => absurd hc (hcode id)⟩
+
+/-- **the other order is not a refinement** (closed witness on the extracted binary plan): one
+cached untrained point, `Flush; Fit`: the cache now shows the code, the committed bucket still the raw
+vector — a fresh cache on the same bucket answers differently (`view ≠ obs`), and the entry is not even
+scheduled for a later write unless its own dirty flag survives -/
+theorem C08_flush_before_fit_witness :
+    ∃ (c : Cache Id Pt) (kv : KV) (f : Id → Pt → Pt),
+      Tracked (storable binaryQuantizedPoint) norm okQ c kv ∧
+      (let r := runPhases (storable binaryQuantizedPoint) f [.flush, .fit] (c, kv)
+       view (storable binaryQuantizedPoint) norm r.1.items r.2 5#64 ≠ obs (storable binaryQuantizedPoint) norm r.2 5#64) ∧
+      (let r := runPhases (storable binaryQuantizedPoint) f [.fit, .flush] (c, kv)
+       view (storable binaryQuantizedPoint) norm r.1.items r.2 5#64 = obs (storable binaryQuantizedPoint) norm r.2 5#64) := by
+  refine ⟨put Cache.empty 5#64 { vec := [1#8] }, KV.empty, fun _ p => { p with code := [2#8], dirty := true }, ?_, by decide, by decide⟩
+  exact tracked_put (coherent_empty _ _ _ _).tracked _ _ ⟨by simp, fun _ => by decide⟩
+
+/-- the same at the level of the store's parameters: `Flush; Fit` leaves a store whose learned
+threshold a re-created store (`vectorstore.New` after restart / eviction / with the cache disabled)
+does not find, `Fit; Flush` one that it finds (cf. `C08_params_persist_binary`) -/
+theorem C08_flush_before_fit_params_witness :
+    ∃ (s : Store) (kv : KV) (o : FitOracle) (s₁ s₂ : Store),
+      (s.flush kv).1.fit (s.flush kv).2 o = some s₁ ∧ s₁.trained = true ∧ (Store.new s.cfg (s.flush kv).2).trained = false ∧
+      s.fit kv o = some s₂ ∧ (Store.new s.cfg (s₂.flush kv).2).params = s₂.params ∧ s₂.trained = true := by
+  let s : Store := { cfg := { kind := .binary, trigger := 1 }, cache := put Cache.empty 5#64 { vec := [1#8] } }
+  let o : FitOracle := { params := [7#8], code := fun _ => [2#8] }
+  refine ⟨s, KV.empty, o, ((s.flush KV.empty).1.fit (s.flush KV.empty).2 o).get (by decide), (s.fit KV.empty o).get (by decide), ?_, ?_, ?_, ?_, ?_, ?_⟩ <;> first | simp | decide
+
+
+/-! ### the batch that crosses the trigger threshold, at the level of the store (`Store.fit`, then `Store.flush`) -/
+
+/-- a parameter key is invisible to the point plan: putting it keeps the cache coherent -/
+theorem coherent_put_other_binary {c : Cache Id Pt} {kv : KV}
+    (h : Coherent (storable binaryQuantizedPoint) norm okQ c kv) (pk x : Bytes) (hpk : ∀ id s, nodeKey id s ≠ pk) :
+    Coherent (storable binaryQuantizedPoint) norm okQ c (kv.put pk x) := by
+  have hr : ∀ id, (storable binaryQuantizedPoint).readFrom id (kv.put pk x) = (storable binaryQuantizedPoint).readFrom id kv := by
+    intro id
+    simp only [storable]
+    exact readSteps_put_other id kv pk x hpk _ _
+  have ho : ∀ id, obs (storable binaryQuantizedPoint) norm (kv.put pk x) id = obs (storable binaryQuantizedPoint) norm kv id := by
+    intro id
+    simp only [obs, hr]
+  refine ⟨h.nodup, ?_, ?_, ?_⟩
+  · intro id e hf
+    obtain ⟨a, b, c'⟩ := h.agree id e hf
+    exact ⟨a, b, by rw [ho]; exact c'⟩
+  · intro id e hf hw
+    obtain ⟨h1, h2⟩ := h.rewrite id e hf hw
+    refine ⟨h1, fun hc => ?_⟩
+    have hq : qKey id ≠ pk := hpk id _
+    rw [get_put, if_neg hq]
+    exact h2 hc
+  · intro ha id hs
+    rw [hr] at hs
+    exact h.allIn ha id hs
+
+/-- what `Store.fit` leaves behind is still a trackable cache, the configuration is untouched, and a
+store that is untrained afterwards was untrained before (binary store, learned threshold) -/
+theorem fit_tracked_binary (s s' : Store) (kv : KV) (o : FitOracle) (hk : s.cfg.kind = .binary)
+    (ht : Tracked (storable binaryQuantizedPoint) norm okQ s.cache kv)
+    (hcode : ∀ id, o.code id ≠ []) (hfit : s.fit kv o = some s') :
+    Tracked (storable binaryQuantizedPoint) norm okQ s'.cache kv ∧ s'.cfg = s.cfg ∧ (s'.params = [] → s.params = []) := by
+  have hst : s.st = storable binaryQuantizedPoint := by simp [Store.st, planOf, hk]
+  unfold Store.fit at hfit
+  simp only [hk, hst] at hfit
+  split at hfit
+  · cases hfit; exact ⟨ht, rfl, id⟩
+  · rename_i hnot
+    have huntr : s.params = [] := by
+      simp only [Bool.or_eq_true, not_or, Store.trained] at hnot
+      have := hnot.1
+      cases hp : s.params <;> simp_all
+    obtain ⟨c', l, hfe, htr', _, _, _, _⟩ := forEach_spec laws_binary enum_binary (wf := fun _ => True) trivial ht
+    have hload : loadAll (storable binaryQuantizedPoint) s.cache kv = some c' := by
+      unfold forEach at hfe
+      cases hl : loadAll (storable binaryQuantizedPoint) s.cache kv with
+      | none => rw [hl] at hfe; cases hfe
+      | some c'' => rw [hl] at hfe; simp only [Option.map_some, Option.some.injEq, Prod.mk.injEq] at hfe; rw [hfe.1]
+    rw [hload] at hfit
+    simp only at hfit
+    split at hfit
+    · cases hfit; exact ⟨htr', rfl, fun _ => huntr⟩
+    · cases hfit
+      refine ⟨?_, rfl, fun _ => huntr⟩
+      have := tracked_mapLive htr' (fun id p => ({ vec := (o.vec id).getD p.vec, code := o.code id, dirty := true } : Pt))
+        (fun id e _ _ => Or.inl (by simp [storable, binaryQuantizedPoint]))
+        (fun id e _ _ => ⟨Or.inl (hcode id), fun hc => absurd hc (hcode id)⟩)
+      simpa [mapLive] using this
+
+/-- **C08_train_in_batch_binary**: the write path of a vector index ends `Fit; Flush` (pinned above).
+Whatever `Fit` decides — still below the trigger, already trained, or *trained in this very batch* —
+after the `Flush` the cache is coherent with the committed bucket (re-encoded points included), and a
+store re-created on that bucket (`vectorstore.New` after a restart / an eviction / with the cache
+disabled) has exactly the parameters of the live store: warm and cold compute the same distances
+from the same stored codes.  (`C08_flush_before_fit_params_witness` shows that the other order does
+not have this property.) -/
+theorem C08_train_in_batch_binary (s s' : Store) (kv : KV) (o : FitOracle)
+    (hk : s.cfg.kind = .binary) (hfix : s.cfg.fixed = none)
+    (ht : Tracked (storable binaryQuantizedPoint) norm okQ s.cache kv)
+    (huntrained : s.params = [] → kv.get thresholdKey = none)
+    (hcode : ∀ id, o.code id ≠ []) (hfit : s.fit kv o = some s') :
+    Coherent (storable binaryQuantizedPoint) norm okQ (s'.flush kv).1.cache (s'.flush kv).2 ∧
+    (Store.new s.cfg (s'.flush kv).2).params = s'.params := by
+  obtain ⟨ht', hcfg, hun⟩ := fit_tracked_binary s s' kv o hk ht hcode hfit
+  have hk' : s'.cfg.kind = .binary := by rw [hcfg]; exact hk
+  have hst' : s'.st = storable binaryQuantizedPoint := by simp [Store.st, planOf, hk']
+  constructor
+  · have hf := (flush_spec laws_binary ht').1
+    unfold Store.flush
+    simp only [hk', hst']
+    split
+    · exact coherent_put_other_binary hf _ _ thresholdKey_ne
+    · exact hf
+  · have := C08_params_persist_binary s' kv hk' (by rw [hst']; exact ht')
+      (fun t h => by rw [hcfg, hfix] at h; cases h)
+      (fun hp _ => huntrained (hun hp))
+    rw [← hcfg]
+    exact this
+
+/-! ### lifetime of bucket memory: what is cached across transactions must be a copy -/
+
+/-- no `ReadFrom` / constructor of the anchored files lets a byte slice of the storage layer escape
+un-copied (taint extraction on every run: results of `bucket.Get`, key / value parameters of scan
+callbacks, followed into same-file callees; a use is harmless only if it compares, indexes, takes
+the length, copies or decodes) -/
+example : ∀ r ∈ Gen.FactsC08.bucketReads, r.aliased = false := by decide
+
+/-- **C08_read_copies_stable**: if a `ReadFrom` keeps only copies, the projection of the cached
+value does not depend on the bytes after the read: whatever later transactions do to the memory that
+served it (`mem`: pages recycled by later commits, a remapped file), the cached item keeps the
+projection it had inside the reading transaction — so the `agree` clause of `Coherent`, established
+when the item was read, stays true for the life of the cache -/
+theorem C08_read_copies_stable {K P : Type} (r : BRead K P) (hc : r.Copies) {id : K} {kv : KV} {hs : List Held}
+    (h : r.keep id kv = some hs) (mem : Bytes → Option Bytes) : r.projAt mem hs = r.projNow kv hs := by
+  unfold BRead.projNow BRead.projAt
+  rw [held_bytes_own (hc id kv hs h) mem (fun k => kv.get k)]
+
+/-- two caches that read the same bucket at different times (a long-lived warm one, a fresh one)
+agree on every item, whatever happened to the memory in between -/
+theorem C08_read_copies_warm_cold {K P : Type} (r : BRead K P) (hc : r.Copies) {id : K} {kv : KV} {hs : List Held}
+    (h : r.keep id kv = some hs) (mem₁ mem₂ : Bytes → Option Bytes) : r.projAt mem₁ hs = r.projAt mem₂ hs := by
+  rw [C08_read_copies_stable r hc h mem₁, C08_read_copies_stable r hc h mem₂]
+
+/-- **an alias is not stable** (closed witness): a reader that keeps the code slice itself agrees
+with the bucket inside its transaction and reads something else once a later commit has recycled
+the page -/
+theorem C08_alias_unstable_witness :
+    ∃ (r : BRead Id (List (Option Bytes))) (kv : KV) (hs : List Held) (mem : Bytes → Option Bytes),
+      r.keep 5#64 kv = some hs ∧ r.projNow kv hs = [some [1#8, 0#8]] ∧ r.projAt mem hs ≠ r.projNow kv hs ∧ ¬ r.Copies := by
+  let r : BRead Id (List (Option Bytes)) :=
+    { keep := fun id kv => (kv.get (qKey id)).map fun _ => [Held.alias (qKey id)], decode := fun l => l }
+  refine ⟨r, KV.empty.put (qKey 5#64) [1#8, 0#8], [Held.alias (qKey 5#64)], fun _ => some [0#8, 1#8], by decide, by decide, by decide, ?_⟩
+  intro hc
+  obtain ⟨b, hb⟩ := hc 5#64 (KV.empty.put (qKey 5#64) [1#8, 0#8]) [Held.alias (qKey 5#64)] (by decide) _ (List.mem_singleton.2 rfl)
+  cases hb
+
+/-- a copying reader of the same key satisfies the hypothesis of `C08_read_copies_stable` -/
+example : ∃ r : BRead Id (List (Option Bytes)), r.Copies ∧
+    r.keep 5#64 (KV.empty.put (qKey 5#64) [1#8, 0#8]) = some [Held.own [1#8, 0#8]] := by
+  refine ⟨{ keep := fun id kv => (kv.get (qKey id)).map fun b => [Held.own b], decode := fun l => l }, ?_, by decide⟩
+  intro id kv hs h x hx
+  simp only [Option.map_eq_some_iff] at h
+  obtain ⟨b, _, rfl⟩ := h
+  exact ⟨b, List.mem_singleton.1 hx⟩
+
 /-! ### non-vacuity -/
 
 /-- a two-suffix bucket with a cached, a dirty and a deleted entry: the hypotheses of `C08_flush`
